@@ -574,6 +574,11 @@ impl PoeticNumberLiteral {
             .filter(|e| *e != PoeticNumberLiteralIteratorItem::Dot)
             .enumerate()
             .map(|(idx, item)| {
+                #[cfg(feature = "verif")]
+                crate::verif::pre(
+                    "ast.compute_value.dot",
+                    item != PoeticNumberLiteralIteratorItem::Dot,
+                );
                 let length = match item {
                     PoeticNumberLiteralIteratorItem::Dot => unsafe { unreachable_unchecked() },
                     PoeticNumberLiteralIteratorItem::Word(s) => Self::word_len(s),
